@@ -26,18 +26,20 @@ Theorem total_map : forall s, reachable s ->
   (forall a k v s', step s (SetItem a k v) = (s', OOk) ->
                     exists at_ isv l, lookup a (attrs s) = Some at_ /\
                                       sparse_validate (aty at_) (asz at_) v = inr (isv, l) /\
-                                      rd s' a k = Some (map (cast (aty at_)) l) /\
+                                      rd s' a k = Some (written at_ isv l) /\
                                       forall b j, (b, j) <> (a, k) -> rd s' b j = rd s b j) /\
   (* a refused write changes nothing *)
   (forall a k v s' e, step s (SetItem a k v) = (s', OErr e) -> forall b j, rd s' b j = rd s b j) /\
   (* a new attribute reads its default (custom or the type's) at every element index *)
   (forall a t k dense d s', 1 <= k -> step s (Create a t k dense d) = (s', OOk) ->
-                            (forall j, 0 <= j < sn s -> rd s' a j = Some (repeat (cast t (default_of t d)) (Z.to_nat k))) /\
+                            (exists at', lookup a (attrs s') = Some at' /\
+                                         default_row (hp s') at' = repeat (store t (default_of t d)) (Z.to_nat k) /\
+                                         forall j, 0 <= j < sn s -> rd s' a j = Some (unset_read (hp s') at')) /\
                             forall b j, b <> a -> rd s' b j = rd s b j) /\
   (* clear resets every element index to the default and touches no other attribute *)
   (forall a s', step s (ClearAttr a) = (s', OOk) ->
                 exists at_, lookup a (attrs s) = Some at_ /\
-                            (forall j, 0 <= j < sn s -> rd s' a j = Some (default_row (hp s) at_)) /\
+                            (forall j, 0 <= j < sn s -> rd s' a j = Some (unset_read (hp s) at_)) /\
                             forall b j, b <> a -> rd s' b j = rd s b j).
 Proof.
   intros s Hr. pose proof (reachable_inv s Hr) as Hi. repeat split.
@@ -45,8 +47,7 @@ Proof.
   - destruct (get_laws _ _ _ _ _ Hi H) as [_ [F _]]. exact F.
   - intros a k v s' E. destruct (set_laws _ _ _ _ _ Hi E) as [at_ [isv [l [H1 [H2 [H3 [H4 _]]]]]]]. eauto 8.
   - intros a k v s' e E. eapply set_err_unchanged; eauto.
-  - destruct (create_laws _ _ _ _ _ _ _ Hi H H0) as [at' [L [T [Z0 [D [R0 [F N]]]]]]].
-    intros j Hj. rewrite (R0 j Hj), D. reflexivity.
+  - destruct (create_laws _ _ _ _ _ _ _ Hi H H0) as [at' [L [T [Z0 [D [R0 [F N]]]]]]]. eauto.
   - destruct (create_laws _ _ _ _ _ _ _ Hi H H0) as [at' [L [T [Z0 [D [R0 [F N]]]]]]]. exact F.
   - intros a s' E. destruct (clear_laws _ _ _ Hi E) as [at_ [at' [L [L' [D [R0 [F N]]]]]]]. eauto.
 Qed.
@@ -59,7 +60,7 @@ Theorem growth_keeps_values : forall s o s' n l, reachable s -> op_ok o ->
     (forall j, 0 <= j < sn s -> rd s' a j = rd s a j) /\
     (forall j, sn s <= j < sn s' ->
                match ast at_ with Sparse m => lookup j m = None | Dense _ _ _ => True end ->
-               rd s' a j = Some (default_row (hp s) at_)).
+               rd s' a j = Some (unset_read (hp s) at_)).
 Proof.
   intros s o s' n l Hr Ho E NC. pose proof (reachable_inv s Hr) as Hi. apply inv_tick in Hi.
   assert (G : forall added amount, 0 <= added -> amount = added -> grow (tick s) added amount = (s', OGrow n l) ->
@@ -67,13 +68,14 @@ Proof.
                 (forall j, 0 <= j < sn s -> rd s' a j = rd s a j) /\
                 (forall j, sn s <= j < sn s' ->
                            match ast at_ with Sparse m => lookup j m = None | Dense _ _ _ => True end ->
-                           rd s' a j = Some (default_row (hp s) at_))).
+                           rd s' a j = Some (unset_read (hp s) at_))).
   { intros added amount Ha Ea Eg. assert (S' : s' = fst (grow (tick s) added amount)) by now rewrite Eg. split.
     - subst s'. unfold grow. simpl. lia.
     - intros a at_ La. destruct (grow_laws (tick s) added amount a at_ Hi Ha Ea La) as [G1 [G2 G3]].
       rewrite <- S' in *. split; [exact G2|exact G3]. }
   unfold step in E. destruct o; simpl in E, Ho;
-    try (unfold do_create, do_set, do_get, do_mut, do_clear_attr, do_as_array in E;
+    try (unfold do_create, do_set, do_get, do_mut, do_clear_attr, do_as_array, do_update, do_mut_arr, do_contains,
+           do_create_sized, do_register, do_get in E;
          repeat (match type of E with context [match ?x with _ => _ end] => destruct x; try discriminate E end);
          discriminate E).
   - apply (G 1 (append_amount (tick s))); [lia| |exact E]. unfold append_amount. destruct (corner (tick s)); reflexivity.
@@ -82,6 +84,9 @@ Proof.
   - apply (G (sn (tick s)) (iadd_cont_amount (tick s) (sn (tick s)) (sn (tick s) + sn (tick s)))); [destruct Hi; lia| |exact E].
     unfold iadd_cont_amount. destruct (corner (tick s)); reflexivity.
   - congruence.
+  - destruct (corner s) eqn:Cn; [discriminate E|].
+    apply (G (m + 1) (iadd_list_amount (tick s) (m + 1))); [lia| |exact E]. unfold iadd_list_amount.
+    change (corner (tick s)) with (corner s). rewrite Cn. reflexivity.
 Qed.
 
 (* ------------------------------------------------------------------ dense bounds along every history *)
@@ -117,20 +122,31 @@ Proof.
   vm_compute. split; [reflexivity|]. do 4 eexists. repeat split; reflexivity.
 Qed.
 
-(* the agreement theorem speaks about real histories: this one writes, reads, grows, clears and exports *)
+(* the agreement theorem speaks about real histories: this one writes, reads, updates a written entry in place, grows,
+   clears and exports *)
 Definition ex_shared : list op :=
   [Append; ExtendList 2; Create 0 TFloat 2 false None; SetItem 0 1 (VSeq [CI 3; CF 20]); GetItem 0 1; GetItem 0 2;
-   SetItem 0 2 (VSeq [CI 3]); SetItem 0 0 (VSeq [CF 8; CS 1]); Append; ExtendSelf; AsArray 0; GetItem 0 7;
-   ClearAttr 0; AsArray 0; Create 1 TString 1 true (Some (CS 2)); SetItem 1 3 (VStr 1 [1]); GetItem 1 3; GetItem 1 4].
+   Update 0 1 0 (CF 44); GetItem 0 1;
+   SetItem 0 2 (VSeq [CI 3]); SetItem 0 0 (VSeq [CF 8; CS [1]]); Append; ExtendSelf; ExtendListBad 1; AsArray 0; GetItem 0 7;
+   ClearAttr 0; AsArray 0; Create 1 TString 1 true (Some (CS [2])); SetItem 1 3 (VStr [1]); GetItem 1 3; GetItem 1 4;
+   Update 1 3 0 (CS [1])].
 
-Example ex_shared_ok : Forall op_ok ex_shared /\ Forall shared_op ex_shared /\ well_addressed 0 ex_shared.
-Proof. unfold ex_shared. split; [|split]; simpl; repeat constructor; simpl; lia. Qed.
+Example ex_shared_ok :
+  Forall op_ok ex_shared /\ Forall shared_op ex_shared /\ Forall short_op ex_shared /\ well_addressed false 0 ex_shared /\
+  updates_hit_written (init false) ex_shared.
+Proof.
+  unfold ex_shared. split; [|split; [|split; [|split]]]; simpl; repeat constructor; simpl; unfold string_width; try lia.
+  intros _. vm_compute. eauto.
+Qed.
 
 Example ex_shared_obs :
   map pub (snd (run (init false) (map (force false) ex_shared))) =
-  [OGrow 1 []; OGrow 3 []; OOk; OOk; OVal [CF 24; CF 20] true; OVal [CF 0; CF 0] true; OErr ESize; OErr EType;
-   OGrow 4 []; OGrow 8 []; ORows [[CF 0; CF 0]; [CF 24; CF 20]; [CF 0; CF 0]; [CF 0; CF 0]; [CF 0; CF 0]; [CF 0; CF 0]; [CF 0; CF 0]; [CF 0; CF 0]];
-   OVal [CF 0; CF 0] true; OOk; ORows (repeat [CF 0; CF 0] 8); OOk; OOk; OVal [CS 1] false; OVal [CS 2] false].
+  [OGrow 1 []; OGrow 3 []; OOk; OOk; OVal [CF 24; CF 20] true; OVal [CF 0; CF 0] true;
+   OOk; OVal [CF 44; CF 20] true; OErr ESize; OErr EType;
+   OGrow 4 []; OGrow 8 []; OGrow 10 [];
+   ORows [[CF 0; CF 0]; [CF 44; CF 20]; [CF 0; CF 0]; [CF 0; CF 0]; [CF 0; CF 0]; [CF 0; CF 0]; [CF 0; CF 0]; [CF 0; CF 0]; [CF 0; CF 0]; [CF 0; CF 0]];
+   OVal [CF 0; CF 0] true; OOk; ORows (repeat [CF 0; CF 0] 10); OOk; OOk; OVal [CS [1]] false; OVal [CS [2]] false;
+   OErr ENotSub].
 Proof. vm_compute. reflexivity. Qed.
 
 (* the no-aliasing theorem's hypothesis (the read hands out a reference) is met by sparse unset, sparse set and dense reads *)
